@@ -82,7 +82,10 @@ OPTIMIZERS = {
     # required to agree to 1e-4 of each leaf's magnitude instead of bitwise
     # (what this configuration is about is that the restored state can be
     # stepped at all and is not modified in place)
-    # (tearfree Shampoo is not run this way: with NumPy leaves part of its
+    "tf_shampoo_eager": ("tf", {"block_size": 2, "merge_dims": 2,
+                                "update_statistics_freq": 2}, "rep", SHAPES,
+                         {"jit": False, "tol": 1e-4}),
+    # (tearfree Shampoo cannot be compared bitwise this way: with NumPy leaves part of its
     # moving average is evaluated by NumPy, which rounds a*x+b*y twice where
     # XLA fuses it - one-ulp differences that are not the library's doing)
     "tf_shampoo": ("tf", {"block_size": 2, "merge_dims": 2,
